@@ -62,6 +62,10 @@ def nearmiss_programs(ctx, rng, n):
             # a commented-out declaration, annotations included, directly above the live one (a block comment is never an annotation)
             d = d.replace("type T struct {", "/*\n// @immutable\n// @constructor NewT\ntype Old struct{}\n*/\ntype T struct {", 1)
             d = d.replace("func TF(n int) int { return n }", "/*\n// @testonly\n*/\nfunc TF(n int) int { return n }", 1)
+        if i % 3 == 1:
+            # a trailing comment of the previous declaration, one empty line above a declaration whose own doc is a directive
+            d = d.replace("func TF(n int) int { return n }", "var tuning = 3 // @testonly tuning knob\n\n//go:noinline\nfunc TF(n int) int { return n }", 1)
+            d = d.replace("type PT struct{ X int }", "const limit = 8 // @packageonly limit\n\n//go:generate echo PT\ntype PT struct{ X int }", 1)
         pkgs = [{"path": "m/d", "name": "d", "files": [{"name": "d/d.go", "src": d}]}]
         for p in ("u", "w"):
             src, _where = gen_all.use_file(p, "%s/a.go" % p, codes=non_impl)
